@@ -520,6 +520,8 @@ func execOp(op string) vlib.Res {
 		return vlib.Res{Impl: fmt.Sprintf("len=%d", fc.Len()), Oracle: or}
 	case "sset": // <name> <type> <class> <keycd> <scope> <class: useful|servfail|other> <now>
 		return execSet(a)
+	case "fserve": // <name> <type> <class> <cd> <opt> <now> <primary> <fallback>
+		return execFServe(a)
 	case "wserve": // <name> <type> <class> <cd> <opt> <now>
 		return execWServe(a)
 	case "probe": // <now> <n> then n × <q key 5>
